@@ -236,41 +236,52 @@ def digitsLoop (inp : Input) : Nat → Nat → Res Nat
       | .oob => .oob
       | .outOfFuel => .outOfFuel
 
-/-- `parse_number()`; the value is the literal's text -/
-def parseNumber (inp : Input) (pos : Nat) : Res (JV × Nat) := do
-  let start := pos
-  let (_, p) ← matchCh inp pos 0x2D
-  let (z, p) ← matchCh inp p 0x30
-  let p ←
-    if z then pure p
+/-- integer part: `0`, or a digit followed by the digit loop, else "Invalid number literal" -/
+def numInt (inp : Input) (pos : Nat) : Res Nat := do
+  let (z, p) ← matchCh inp pos 0x30
+  if z then pure p
+  else do
+    let ch ← peek inp p
+    if isDigit ch then digitsLoop inp (fuelFor inp) p else .err "Invalid number literal"
+
+/-- optional fraction: `.` then at least one digit -/
+def numFrac (inp : Input) (pos : Nat) : Res Nat := do
+  let (dot, p) ← matchCh inp pos 0x2E
+  if dot then
+    if eof inp p then .err "Invalid fractional number"
     else do
       let ch ← peek inp p
-      if isDigit ch then digitsLoop inp (fuelFor inp) p else .err "Invalid number literal"
-  let (dot, p) ← matchCh inp p 0x2E
-  let p ←
-    if dot then
-      if eof inp p then .err "Invalid fractional number"
+      if isDigit ch then digitsLoop inp (fuelFor inp) p else .err "Invalid fractional number"
+  else pure p
+
+/-- optional sign of the exponent -/
+def numExpSign (inp : Input) (pos : Nat) : Res Nat :=
+  if eof inp pos then pure pos
+  else do
+    let s ← peek inp pos
+    if s = 0x2B ∨ s = 0x2D then pure (pos + 1) else pure pos
+
+/-- optional exponent: `e`/`E`, optional sign, at least one digit -/
+def numExp (inp : Input) (pos : Nat) : Res Nat :=
+  if eof inp pos then pure pos
+  else do
+    let ch ← peek inp pos
+    if ch = 0x65 ∨ ch = 0x45 then do
+      let p ← numExpSign inp (pos + 1)
+      if eof inp p then .err "Invalid exponent in number"
       else do
         let ch ← peek inp p
-        if isDigit ch then digitsLoop inp (fuelFor inp) p else .err "Invalid fractional number"
-    else pure p
-  let p ←
-    if eof inp p then pure p
-    else do
-      let ch ← peek inp p
-      if ch = 0x65 ∨ ch = 0x45 then do
-        let p := p + 1
-        let p ←
-          if eof inp p then pure p
-          else do
-            let s ← peek inp p
-            if s = 0x2B ∨ s = 0x2D then pure (p + 1) else pure p
-        if eof inp p then .err "Invalid exponent in number"
-        else do
-          let ch ← peek inp p
-          if isDigit ch then digitsLoop inp (fuelFor inp) p else .err "Invalid exponent in number"
-      else pure p
-  pure (.num (inp.extract start p).toList, p)
+        if isDigit ch then digitsLoop inp (fuelFor inp) p else .err "Invalid exponent in number"
+    else pure pos
+
+/-- `parse_number()`; the value is the literal's text (its four stages are separate functions
+    here only to keep the term small; they are consecutive blocks of one C++ function) -/
+def parseNumber (inp : Input) (pos : Nat) : Res (JV × Nat) := do
+  let (_, p) ← matchCh inp pos 0x2D
+  let p ← numInt inp p
+  let p ← numFrac inp p
+  let p ← numExp inp p
+  pure (.num (inp.extract pos p).toList, p)
 
 /-! ### containers (the callee `pv` is `parse_value` one nesting level down) -/
 
